@@ -51,3 +51,18 @@ cls('Dm11', _pgn=INT, _ca=TRef('ControllerApplication'), _subscribers_req_clear=
 # external objects of the ECU
 ext('ThreadEvent', is_set=BOOL)
 cls('ElectronicControlUnit', _job_thread_end=TRef('ThreadEvent'))
+
+# ---- J1939-22 (CAN FD) data link layer
+cls('J1939_22',
+    _rcv_buffer=TTable(TRef('Rcv22')), _snd_buffer=TTable(TRef('Snd22')), _multi_pg_snd_buffer=TTable(TRef('Mpg22')),
+    _cas=TList(TRef('ControllerApplication')), _LUT_FD_DLC=TList(INT),
+    _minimum_tp_rts_cts_dt_interval=TOpt(REAL), _minimum_tp_bam_dt_interval=REAL, _max_cmdt_packets=INT,
+    _J1939_22__bam_session_list=TList(BOOL), _J1939_22__rts_cts_session_list=TList(BOOL),
+    _J1939_22__job_thread_wakeup=TFunc(), _J1939_22__send_message=TFunc(), _J1939_22__notify_subscribers=TFunc(),
+    _J1939_22__ecu_is_message_acceptable=TFunc(BOOL, True))
+rec('Snd22', pgn=INT, priority=INT, session=INT, message_size=INT, num_segments=INT, data=TList(TList(INT)), state=INT,
+    deadline=REAL, src_address=INT, dest_address=INT, next_packet_to_send=INT, next_wait_on_cts=INT)
+rec('Rcv22', pgn=INT, session=INT, message_size=INT, num_segments=INT, next_packet=INT, next_cts_border=INT,
+    num_segments_max_rec=INT, data=TList(INT), deadline=REAL, src_address=INT, dest_address=INT)
+rec('Mpg22', deadline=REAL, cpg=TList(TRef('Cpg')), fill_level=INT)
+rec('Cpg', priority=INT, tos=INT, tf=INT, cpgn=INT, data_length=INT, data=TList(INT))
